@@ -71,8 +71,8 @@ OneLog == { <<>>, << <<"INFO", "m1">> >>, << <<"DEBUG", "m1">>, <<"ERROR", "m2">
 UnaryCalls == [k : {"unary"}, m : {"u_val", "u_void"}, pm : {"ok"}, logs : OneLog, lvl : {"", "INFO"}, o : Outcomes]
               \cup [k : {"unary"}, m : {"u_val"}, pm : {"mismatch"}, logs : {<<>>}, lvl : {""}, o : {"value"}]
 PreSeqs(n) == UNION { [1..k -> {"emit", "emitlogs", "emitmeta"}] : k \in 0..n }
-ProdTerms == {"finish", "emitfinish", "error", "errlogs", "panic", "noemit", "emit2"}
-ExchTerms == {"finish", "error", "panic", "noemit", "emit2"}
+ProdTerms == {"finish", "emitfinish", "error", "errlogs", "panic", "emitpanic", "noemit", "emit2"}
+ExchTerms == {"finish", "error", "panic", "emitpanic", "noemit", "emit2"}
 TurnSeqs(n, terms) == PreSeqs(n) \cup { p \o <<t>> : p \in PreSeqs(n), t \in terms }
 TermsOf(m) == IF IsProd(m) THEN ProdTerms ELSE ExchTerms
 CastsOf(m, casts) == IF IsProd(m) THEN {"eq"} ELSE casts
@@ -88,12 +88,12 @@ StreamBad(ms) ==
        logs |-> <<>>, lvl |-> "", turns |-> <<>>, nin |-> 1, cancel |-> 0, cast |-> "eq", meta |-> "none"] :
         m \in ms, pm \in {"ok", "mismatch"}, i \in {"error", "panic", "nil"} }
 Lg1 == { <<>>, << <<"INFO", "m1">> >> }
-QuickCalls == StreamOK({"prod", "exch"}, 2, {0, 2, 3}, {"eq", "bad"}, {"none", "user"}, Lg1)
+QuickCalls == StreamOK({"prod", "exch"}, 2, {0, 2, 3}, {"eq", "bad"}, {"none", "user", "dup"}, Lg1)
               \cup StreamOK({"prodh", "exchh", "dynp"}, 1, {1, 3}, {"castable"}, {"collide"}, {<<>>})
               \cup StreamBad({"prod", "exchh"})
 SmallCalls == StreamOK({"prod", "exch"}, 1, {0, 2}, {"eq"}, {"none"}, {<<>>}) \cup StreamBad({"prod"})
 FullCalls == StreamOK({"prod", "prodh", "exch", "exchh", "dynp", "dynx"}, 2, {0, 1, 2, 3}, {"eq", "castable", "bad"},
-                      {"none", "user", "collide"}, Lg1)
+                      {"none", "user", "collide", "dup"}, Lg1)
              \cup StreamBad({"prod", "prodh", "exch", "exchh", "dynp", "dynx"})
 \* producers that only emit: the population for the response-size cap (sizes are uniform)
 CapCalls == { [k |-> "stream", m |-> "prod", hdr |-> FALSE, pm |-> "ok", init |-> "ok", logs |-> <<>>, lvl |-> "",
@@ -185,7 +185,10 @@ Produces(n) == [i \in 1..n |-> "produce"]
 NoRec == [x \in {} |-> 0]
 WithEnd(r, v, ended, cmp) ==
     [r EXCEPT !.exp = @ @@ [view |-> v, ended |-> ended] @@ (IF ended /\ cmp THEN [pipe_eq |-> TRUE] ELSE NoRec)]
+\* "dup": the request repeats the framework keys after the real ones (Arrow metadata is a list);
+\* the handler must see none of them
 MetaKeys(me) == CASE me = "user" -> <<"user.a", "user.b">>
+                  [] me = "dup" -> <<"user.a">>
                   [] me = "collide" -> <<"vgi_rpc.stream_state", "user.a", "vgi_rpc.cancelled">>
                   [] OTHER -> <<>>
 PipeComparable(c, nsent) == IF IsProd(c.m) THEN (c.cancel = 0 \/ c.cancel > nsent) ELSE TRUE
